@@ -89,6 +89,7 @@ func newSys(values map[string][]byte) (*sys, error) {
 	plugins.AddDest(fakes.DestScript{Name: "dst"})
 	procs := fakes.NewProcs(w)
 	procs.Add(fakes.ProcScript{Name: "proc"})
+	procs.Add(fakes.ProcScript{Name: "proc2"})
 	logger := log.Nop()
 	s.pl = pipeline.NewService(logger, s.db)
 	s.conn = connector.NewService(logger, s.db, connector.NewPersister(logger, s.db, time.Hour, 1000000))
@@ -269,6 +270,9 @@ func (s *sys) apply(o op) (err error, storeOps int, panicked string) {
 		if o.Arg == "noplugin" {
 			plug = ""
 		}
+		if o.Arg == "plug2" { // the update also switches the processor to another plugin
+			plug = "proc2"
+		}
 		_, err = s.orc.Processors.Update(ctx, s.nth("R:", o.A), plug, processor.Config{Settings: settings, Workers: w})
 	case "deleteProcessor":
 		err = s.orc.Processors.Delete(ctx, s.nth("R:", o.A))
@@ -341,7 +345,7 @@ func (s *sys) alphabet(thorough bool) []op {
 		if !s.live("R:", r) {
 			continue
 		}
-		out = append(out, op{Kind: "updateProcessor", A: r, Arg: "u"}, op{Kind: "updateProcessor", A: r, Arg: "neg"}, op{Kind: "updateProcessor", A: r, Arg: "egressbad"}, op{Kind: "updateProcessor", A: r, Arg: "noplugin"}, op{Kind: "deleteProcessor", A: r})
+		out = append(out, op{Kind: "updateProcessor", A: r, Arg: "u"}, op{Kind: "updateProcessor", A: r, Arg: "neg"}, op{Kind: "updateProcessor", A: r, Arg: "egressbad"}, op{Kind: "updateProcessor", A: r, Arg: "noplugin"}, op{Kind: "updateProcessor", A: r, Arg: "plug2"}, op{Kind: "deleteProcessor", A: r})
 	}
 	return out
 }
